@@ -208,3 +208,12 @@ def evidence(pid, P, ctx, results, violations, knownhits, unconfirmed, infra, wa
         'coverage': cov, 'assumptions': P.get('assumptions', []) + sorted(stubs), 'wall_s': round(wall, 2),
         'violations': len(violations),
     }
+
+
+@prop('C17', level='other', title='command lines, flags, directives')
+def c17(ctx):
+    q = ctx.quick
+    return [
+        tool_job(ctx, 'shellparse', 'internal/shellparse', 'shellparse', [H(ctx, 'C17', 'shell_h.go')], unwind=40, deadline_s=600 if q else 2400),
+        tool_job(ctx, 'safesplit', 'xtool/safesplit', 'safesplit', [H(ctx, 'C17', 'pkgconfig_h.go')], unwind=40, deadline_s=600 if q else 2400),
+    ]
